@@ -50,13 +50,28 @@ class Unit:
     def resolver(self, extra_files=()):
         trees = [self.tree] + [extract.vx_dump(extract.src_path(f)) for f in extra_files]
         tables = [extract.all_fns(t) for t in trees]
-        def res(name):
-            for tb in tables:
+        def look(tbs, name):
+            for tb in tbs:
                 if name in tb: return tb[name]
                 # trait impl methods are stored as Type::m@Trait
                 for k, v in tb.items():
                     if k.split("@")[0] == name: return v
             return None
+        rest = []
+        def res(name):
+            r = look(tables, name)
+            if r is not None: return r
+            # fallback: any other source file of the crate (a helper extracted into another module is still the real code)
+            if not rest:
+                import glob, os
+                root = os.path.join(extract.REPO, "src")
+                have = {self.file} | set(extra_files)
+                for f in sorted(glob.glob(os.path.join(root, "**", "*.rs"), recursive=True)):
+                    rel = os.path.relpath(f, root)
+                    if rel in have or rel.endswith("verif_hooks.rs"): continue
+                    try: rest.append(extract.all_fns(extract.vx_dump(f)))
+                    except Exception: pass
+            return look(rest, name)
         return res
 
     def auto_consts(self, extra_files=()):
